@@ -96,7 +96,7 @@ struct numeric_limits<bool> {
     static constexpr bool is_bounded = true;
     static constexpr bool is_modulo  = false;
 
-    static constexpr bool traps                    = false;
+    static constexpr bool traps                    = true;
     static constexpr bool tinyness_before          = false;
     static constexpr float_round_style round_style = round_toward_zero;
 };
